@@ -545,7 +545,22 @@ func vecReuse(ctx *Ctx, t *tape.Tape, a, b []world.Op, cut int, w, h int, op dra
 	tz := &world.TameRaster{Rasterizer: vz, Limit: 50000}
 	var r render.Renderer
 	r.SetRasterizer(tz, rect)
+	// One case in eight: the rasteriser is armed with draw.Src when it is
+	// made (the constructor idiom), the first use runs to completion on an
+	// empty rectangle (a clipped-away slot: every Draw covers nothing), and
+	// nothing re-arms the rasteriser afterwards. The armed operator is
+	// consumed by the first Draw whatever it covers, so the second use must
+	// composite with Over like a fresh, unarmed rasteriser.
+	armedFirst := t.Chance(1, 8)
+	if armedFirst {
+		vz.DrawOp = draw.Src
+		r.SetRasterizer(tz, image.Rectangle{})
+		cut = len(a)
+	}
 	pa, _, _ := guard(func() { world.Run(world.Target{Dst: &r}, a[:cut]) })
+	if armedFirst && tz.Draws == 0 {
+		return nil // nothing consumed the armed operator: no expectation
+	}
 	if pa || tz.Bad {
 		if ctx.Stats != nil {
 			if pa {
@@ -574,7 +589,7 @@ func vecReuse(ctx *Ctx, t *tape.Tape, a, b []world.Op, cut int, w, h int, op dra
 	// it already holds (the same, in both arms) opaque and translucent pixels,
 	// so that Src and Over differ
 	var dirt []byte
-	if t.Bool() {
+	if t.Bool() || armedFirst {
 		dirt = make([]byte, len(img1.Pix))
 		x := uint32(t.Intn(1<<30)) | 1
 		for i := 0; i+3 < len(dirt); i += 4 {
@@ -588,9 +603,11 @@ func vecReuse(ctx *Ctx, t *tape.Tape, a, b []world.Op, cut int, w, h int, op dra
 		copy(img1.Pix, dirt)
 	}
 	vz.Dst = img1
-	vz.DrawOp = op
+	if !armedFirst {
+		vz.DrawOp = op
+	}
 	tz.Hash = 0
-	if rect != img0.Bounds() || t.Chance(1, 3) {
+	if armedFirst || rect != img0.Bounds() || t.Chance(1, 3) {
 		r.SetRasterizer(tz, rect)
 	}
 	p1, _, m1 := guard(func() { world.Run(world.Target{Dst: &r}, b) })
@@ -598,7 +615,9 @@ func vecReuse(ctx *Ctx, t *tape.Tape, a, b []world.Op, cut int, w, h int, op dra
 	img2 := image.NewRGBA(rect)
 	copy(img2.Pix, dirt)
 	vz2 := vec.NewRasterizer(img2)
-	vz2.DrawOp = op
+	if !armedFirst {
+		vz2.DrawOp = op
+	}
 	tz2 := &world.TameRaster{Rasterizer: vz2, Limit: 50000}
 	var r2 render.Renderer
 	r2.SetRasterizer(tz2, rect)
